@@ -38,6 +38,16 @@ BIG_INTS = [2 ** 53 + 1, 2 ** 53 - 1, -(2 ** 53 + 1), 3 ** 37, 2 ** 60 + 1, 2 **
 
 
 def operand_values(kind, r):
+    if SPAN == -2:
+        # default resolutions (8, 6): fixed-point values k + d/2^r around small integers, against EVERY small int -20..20
+        # (multipliers and divisors 3, 5, 6, 7, 10, 12 ... are where reciprocal / shift shortcuts live) and a few floats
+        if kind == "F":
+            return [k * (1 << r) + d for k in (-3, -1, 0, 1, 2, 3, 6, 7, 12) for d in (0, 1, (1 << r) // 2, (1 << r) - 1)]
+        if kind == "B":
+            return [0, 1]
+        if kind == "f":
+            return [(1 << r) // 2, 3 << r, 5 << (r - 2), -(7 << r)]
+        return list(range(-20, 21))
     if SPAN < 0:
         # numbers beyond the 53-bit mantissa of a double (nothing may pass through a float)
         if kind == "F":
@@ -296,6 +306,12 @@ def run(ctx):
                 if op in ASSERTS and ka != "F":
                     continue
                 tasks.append((op, ka, kb, r, 90, p, -1))
+    for r in (8, 6) if not ctx.thorough else (8, 6, 7, 10, 16):
+        for op in BIN + ASSERTS:
+            for ka, kb in (("F", "i"), ("i", "F"), ("F", "S"), ("S", "F"), ("F", "f")):
+                if op in ASSERTS and ka != "F":
+                    continue
+                tasks.append((op, ka, kb, r, 2 * r + 12, REC.BN128, -2))
     random.Random(ctx.seed).shuffle(tasks)
     results = common.pool_map(_dispatch, tasks, init=_init)
     agg, nout = {}, 0
@@ -314,7 +330,7 @@ def run(ctx):
     ctx.cov["exhaustive"] = True
     ctx.cov["rule"] = ("13 binary operators + oblivious selection (condition 1 / 0) + 6 assertions x ordered operand-kind pairs over {fixed-point secret, integer "
                        "secret, boolean secret, int, float} with at least one fixed-point operand x ALL multiples of 2^-r in "
-                       "[-2-2^-r, 2+2^-r] (integers -3..3) x resolutions x bitlengths, and operands around and above 2^53 at resolution 8 / 2 with bitlength 90; result representation compared with "
+                       "[-2-2^-r, 2+2^-r] (integers -3..3) x resolutions x bitlengths, operands around and above 2^53 at resolution 8 / 2 with bitlength 90, and at the default resolution 8 (and 6) fixed-point values around small integers against every int -20..20; result representation compared with "
                        "exact Fraction arithmetic (floor(a*b/2^r), floor(a*2^r/b), Python // and % on the represented "
                        "numbers, order for comparisons), raising always accepted; unary: neg, pos, val(), constructors, "
                        "assert_range, x ** k for k = 0..3; states = distinct observed outcomes per task summed")
